@@ -17,6 +17,7 @@ import (
 	"github.com/DDP-Projekt/Kompilierer/src/ddptypes"
 	"github.com/DDP-Projekt/Kompilierer/src/parser"
 	at "github.com/DDP-Projekt/Kompilierer/src/parser/alias_trie"
+	om "github.com/DDP-Projekt/Kompilierer/src/parser/ordered_map"
 	"github.com/DDP-Projekt/Kompilierer/src/token"
 )
 
@@ -47,7 +48,7 @@ func (k vKey) key() []*token.Token {
 
 type vocab struct {
 	words, lits, params []*vTok
-	byName               map[string]*vTok
+	byName              map[string]*vTok
 }
 
 func word(s string) *vTok {
@@ -261,6 +262,8 @@ type trieStats struct {
 	Bad            int            `json:"bad"`
 	BadBy          map[string]int `json:"bad_by_law_and_cause"`
 	BadHistories   int            `json:"bad_histories"`
+	MapHistories   int            `json:"ordered_map_histories"`
+	MapOps         int            `json:"ordered_map_operations"`
 }
 
 type runner struct {
@@ -364,7 +367,7 @@ func (r *runner) run(universe []vKey, ops []op) (ok bool) {
 				panicked = true
 				buf := make([]byte, 1<<14)
 				stk := string(buf[:runtime.Stack(buf, false)])
-				fail("no panic in "+what, key, fmt.Sprint(p), "normal return", innermostFrame(stk))
+				fail("no panic in "+what, key, fmt.Sprint(p), "normal return", repoFrameOf(stk))
 			}
 		}()
 		f()
@@ -577,6 +580,100 @@ func (r *runner) run(universe []vKey, ops []op) (ok bool) {
 	return true
 }
 
+// ---------------------------------------------------------------- the ordered map underneath the trie, driven directly
+// Set / Get / Delete / Keys over single tokens with the parser's predicates against a plain list.
+func (r *runner) mapHistory(name string, toks []*vTok, rg *rng, nops int) {
+	st := r.st
+	st.MapHistories++
+	r.universe = name
+	m := om.New[*token.Token, int](parser.VerifTokenEqual, parser.VerifTokenLess, 8)
+	type ent struct {
+		t *vTok
+		v int
+	}
+	var model []ent
+	var hist []string
+	var touched []*vTok
+	seen := map[*vTok]bool{}
+	find := func(t *vTok) int {
+		for i, e := range model {
+			if parser.VerifTokenEqual(e.t.tok, t.tok) {
+				return i
+			}
+		}
+		return -1
+	}
+	bad := func(law, key, got, want string) {
+		r.report("ordered map: "+law, hist, touched, key, got, want, "")
+		st.BadHistories++
+	}
+	for o := 0; o < nops; o++ {
+		st.MapOps++
+		t := toks[rg.intn(len(toks))]
+		if !seen[t] {
+			seen[t] = true
+			touched = append(touched, t)
+		}
+		switch k := rg.intn(10); {
+		case k < 7:
+			hist = append(hist, fmt.Sprintf("Set %s = %d", t.desc, o))
+			m.Set(t.tok, o)
+			if i := find(t); i >= 0 {
+				model[i].v = o
+			} else {
+				model = append(model, ent{t, o})
+			}
+		case k < 8:
+			hist = append(hist, "Delete "+t.desc)
+			m.Delete(t.tok)
+			if i := find(t); i >= 0 {
+				model = append(model[:i], model[i+1:]...)
+			}
+		default:
+			hist = append(hist, "Get "+t.desc)
+		}
+		if om.Len(m) != len(model) {
+			bad("one entry per key", t.desc, fmt.Sprintf("%d entries", om.Len(m)), fmt.Sprintf("%d entries", len(model)))
+			return
+		}
+		for _, q := range toks {
+			v, ok := m.Get(q.tok)
+			i := find(q)
+			if ok != (i >= 0) {
+				bad("Get finds exactly the keys that were set", q.desc, fmt.Sprint(ok), fmt.Sprint(i >= 0))
+				return
+			}
+			if ok && v != model[i].v {
+				bad("Get returns the value set last for that key", q.desc, fmt.Sprint(v), fmt.Sprint(model[i].v))
+				return
+			}
+		}
+		keys := m.Keys()
+		for i := 0; i < len(keys); i++ {
+			for j := i + 1; j < len(keys); j++ {
+				if parser.VerifTokenLess(keys[j], keys[i]) {
+					bad("keys are kept in ascending order", keys[j].Literal, "out of order", "ascending")
+					return
+				}
+			}
+		}
+	}
+}
+
+// innermost function of the repository on a panic stack (generic instantiations keep their full name)
+func repoFrameOf(stack string) string {
+	for _, l := range strings.Split(stack, "\n") {
+		if strings.HasPrefix(l, "github.com/DDP-Projekt/Kompilierer/src/") {
+			l = strings.TrimPrefix(l, "github.com/DDP-Projekt/Kompilierer/")
+			if i := strings.LastIndex(l, "("); i > 0 {
+				l = l[:i]
+			}
+			return l
+		}
+	}
+	return ""
+}
+
 // all ordered selections of at most maxLen distinct keys of the universe
 func (r *runner) exhaustive(name string, universe []vKey, maxLen int) {
 	r.universe = name
@@ -623,6 +720,7 @@ func trieMain(args []string) {
 	part := fs.Int("part", 0, "partition (universes are dealt round-robin)")
 	parts := fs.Int("parts", 1, "number of partitions")
 	cmp := fs.Bool("cmp", false, "report the comparator pairs")
+	mapHist := fs.Int("maphist", 0, "number of random histories on the ordered map itself")
 	fs.Parse(args)
 	begin("trie")
 	v := buildVocab()
@@ -691,7 +789,9 @@ func trieMain(args []string) {
 			}
 			keys = append(keys, v.mk(s))
 		}
-		r.exhaustive(u.name, keys, *maxLen)
+		if len(keys) > 0 && *maxLen > 0 {
+			r.exhaustive(u.name, keys, *maxLen)
+		}
 	}
 
 	// ---------------- random histories
@@ -776,6 +876,26 @@ func trieMain(args []string) {
 		st.Random++
 		// does the history contain look-alike types at all? (evidence that the clean part is not vacuous)
 		r.run(probe, ops)
+	}
+	// ---------------- the ordered map directly
+	for i := 0; i < *mapHist; i++ {
+		if i%*parts != *part {
+			continue
+		}
+		rg := newRng(*seed^0x6d6170, uint64(i))
+		var toks []*vTok
+		n := 2 + rg.intn(7)
+		for len(toks) < n {
+			switch rg.intn(6) {
+			case 0:
+				toks = append(toks, v.words[rg.intn(len(v.words))])
+			case 1:
+				toks = append(toks, v.lits[rg.intn(len(v.lits))])
+			default:
+				toks = append(toks, v.params[rg.intn(len(v.params))])
+			}
+		}
+		r.mapHistory(fmt.Sprintf("ordered map #%d", i), toks, rg, 4+rg.intn(16))
 	}
 	emit("AGG", st)
 }
